@@ -31,11 +31,14 @@ Definition err_eqb (a b : err) : bool :=
   | _, _ => false
   end.
 (* backend kind, events, implementation: delivered (id, payload), polls (batch, statuses), error *)
-Definition seq_case := (bkind * list ev * list (nat * Z) * list (list (nat * Z) * list (nat * status)) * option err)%type.
+(* last component: the run came from Tuner.run, so every poll must cover exactly the trials the
+   model regards as running (ghost fin = Live) -- ties the ghost state to running_trials_ids *)
+Definition seq_case := (bkind * list ev * list (nat * Z) * list (list (nat * Z) * list (nat * status)) * option err * bool)%type.
 Definition chk_seq (c : seq_case) : bool :=
-  let '(bk, evs, iout, ipolls, ierr) := c in
+  let '(bk, evs, iout, ipolls, ierr, tuner) := c in
   let '(st, e) := run bk init evs in
-  list_eqb pz_eqb (out st) iout && list_eqb poll_eqb (polls st) ipolls && opt_eqb err_eqb e ierr.
+  list_eqb pz_eqb (out st) iout && list_eqb poll_eqb (polls st) ipolls && opt_eqb err_eqb e ierr &&
+  (if tuner then run_disc bk init evs else true).
 (* tabular resume: checkpointing, paused level, table rows (level, payload), implementation rows *)
 Definition zz_eqb (a b : Z * Z) : bool := Z.eqb (fst a) (fst b) && Z.eqb (snd a) (snd b).
 Definition tab_case := (bool * option Z * list (Z * Z) * list (Z * Z))%type.
@@ -87,13 +90,13 @@ def ev_t(e):
     raise ValueError(k)
 
 
-def seq_term(bk, evs, out, polls, err):
-    return "((%s, %s, %s, %s, %s) : seq_case)" % (
+def seq_term(bk, evs, out, polls, err, tuner=False):
+    return "((%s, %s, %s, %s, %s, %s) : seq_case)" % (
         bk, lst(["\n    " + ev_t(e) for e in evs]),
         lst(["(%s, %s)" % (natlit(i), zlit(v)) for i, v in out]),
         lst(["(%s, %s)" % (lst(["(%s, %s)" % (natlit(i), zlit(v)) for i, v in b]),
                            lst(["(%s, %s)" % (natlit(i), ST[s]) for i, s in sts])) for b, sts in polls]),
-        "None" if err is None else "(Some %s)" % err)
+        "None" if err is None else "(Some %s)" % err, blit(tuner))
 
 
 # ----------------------------------------------------------------------------------------------
@@ -229,7 +232,7 @@ def raw_cases(ctx, replay):
             return
         cases = [[tuple(o) for o in replay["ops"]]]
     else:
-        cases = [gen_raw_ops(rng) for _ in range(ctx.n(500, 12000))]
+        cases = [gen_raw_ops(rng) for _ in range(ctx.n(1200, 12000))]
     terms, meta = [], []
     for ops in cases:
         polls, err = run_raw_ops(ops)
@@ -584,7 +587,7 @@ def tuner_cases(ctx, replay, sim):
             return
         cases = [replay]
     else:
-        cases = [gen_tuner_case(rng, sim) for _ in range(ctx.n(250 if sim else 350, 6000 if sim else 9000))]
+        cases = [gen_tuner_case(rng, sim) for _ in range(ctx.n(500 if sim else 700, 6000 if sim else 9000))]
     runner = run_tuner_sim if sim else run_tuner_generic
     terms, meta = [], []
     for case in cases:
@@ -620,7 +623,7 @@ def tuner_cases(ctx, replay, sim):
                 what = "%s: %s %s" % (sig["backend"], event, detail)
             ctx.violation("property", what, case=dict(rcase, first_bad=detail), signature=sig)
             break
-        terms.append(seq_term("Sim" if sim else "Generic", obs["evs"], obs["out"], obs["polls"], None))
+        terms.append(seq_term("Sim" if sim else "Generic", obs["evs"], obs["out"], obs["polls"], None, tuner=True))
         meta.append(dict(rcase, impl_out=obs["out"], impl_polls=obs["polls"], events=[list(e) for e in obs["evs"]]))
     if terms:
         ctx.sample(dict(kind=kind, W=meta[0]["W"], n_polls=meta[0]["n_polls"], events=meta[0]["events"][:10],
@@ -669,7 +672,7 @@ def tabular_cases(ctx, replay):
         cases = [replay]
     else:
         cases = []
-        for _ in range(ctx.n(150, 3000)):
+        for _ in range(ctx.n(300, 3000)):
             n = rng.randint(1, 8)
             levels = sorted(rng.sample(range(1, 20), n))
             paused = rng.choice([None, None] + levels + [0, 25]) if rng.random() < 0.9 else None
@@ -718,21 +721,12 @@ def tabular_cases(ctx, replay):
 
 
 # ----------------------------------------------------------------------------------------------
-DIRECTED = [
-    # the minimal witness of c02_nothing_after_decision_refuted (generic): one trial, run 1 = [a; b],
-    # a visible, PAUSE at a, b written before the worker is gone, resume with run 2 = [c], c visible
-    dict(kind="tuner_generic", seed=0, W=1, n_polls=3, params=dict(lates=[0]),
-         script=dict(suggest=[["start", [[1.0, 0], [2.0, 1]]], ["resume", 0, [[3.0, 100]]]],
-                     decide=[["PAUSE", 1]],
-                     world=[[], [["emit", 0, 1]], [["emit", 0, 1]]])),
-    # simulator: trial 0 reports at elapsed 1.0, 1.25, 3.0; PAUSE at the first report (simulated time 1.0); the stop
-    # signal needs delay_stop = 0.5, so the report of time 1.25 is processed inside the blocking pause_trial; the
-    # scheduler resumes trial 0 in the same loop iteration; the next poll returns that report
-    dict(kind="tuner_sim", seed=0, W=1, n_polls=4,
-         params=dict(lates=[0], delays=[0.0, 0.0, 0.0, 0.0, 0.5], sleep=1.0),
-         script=dict(suggest=[["start", [[1.0, 0], [1.25, 1], [3.0, 2]]], ["resume", 0, [[1.0, 100]]]],
-                     decide=[["PAUSE", 0]], world=[])),
-]
+def load_corpus():
+    """minimised failing cases (corpus/C02/*.json), run first"""
+    import glob
+    import json
+    from common import VERIF
+    return [json.load(open(f)) for f in sorted(glob.glob(os.path.join(VERIF, "corpus", "C02", "*.json")))]
 
 
 def run(ctx, replay=None):
@@ -750,7 +744,7 @@ def run(ctx, replay=None):
     os.environ["SYNETUNE_FOLDER"] = tmp
     try:
         if replay is None:
-            for case in DIRECTED:
+            for case in load_corpus():
                 tuner_cases(ctx, case, sim=case["kind"] == "tuner_sim")
         raw_cases(ctx, replay)
         tuner_cases(ctx, replay, sim=False)
